@@ -2,6 +2,7 @@ package gen
 
 import (
 	"fmt"
+	"google.golang.org/protobuf/encoding/protowire"
 	"strings"
 
 	"github.com/gogo/protobuf/proto"
@@ -37,6 +38,8 @@ type HandSpec struct {
 	// (BlockSizes entry of the middle child = 1), "filesize-under" (FileSize two
 	// bytes short)
 	Lie string
+	// PackedBlockSizes: BlockSizes written as one packed run (legal protobuf)
+	PackedBlockSizes bool
 }
 
 func l(n int, seed byte) HandNode {
@@ -63,6 +66,11 @@ func HandShapes() map[string]HandNode {
 		"3-empty-end": in(l(3, 1), l(3, 2), l(0, 3)),
 		"2x2-empty":   in(in(l(3, 1), l(0, 2)), in(l(0, 3), l(3, 4))),
 		"deep":        in(in(in(l(3, 1), l(3, 2)), in(l(3, 3))), in(in(l(2, 4)))),
+		// roots with exactly one link
+		"1":   in(l(3, 1)),
+		"1x2": in(in(l(3, 1), l(3, 2))),
+		// chunks of 130 / 200 bytes: block sizes that need two-byte varints
+		"big2x2": in(in(l(130, 1), l(200, 2)), in(l(130, 3), l(7, 4))),
 	}
 }
 
@@ -82,6 +90,11 @@ func HandFamily() []HandSpec {
 				for _, fs := range []bool{true, false} {
 					out = append(out, HandSpec{Label: fmt.Sprintf("hand %s leaves=%s blocksizes=%s filesize=%v", n, lk, bs, fs),
 						Root: shapes[n], LeafKind: lk, BlockSizes: bs, FileSize: fs, Tsize: true})
+				}
+				// the same with the block sizes in one packed run
+				if (lk == "pbfile" || lk == "raw") && bs == "all" {
+					out = append(out, HandSpec{Label: fmt.Sprintf("hand %s leaves=%s blocksizes=all filesize=true packed", n, lk),
+						Root: shapes[n], LeafKind: lk, BlockSizes: bs, FileSize: true, Tsize: true, PackedBlockSizes: true})
 				}
 				// links without Tsize / with Tsize 0: only where the reader does
 				// not need it (dag-pb children sized by BlockSizes)
@@ -230,7 +243,19 @@ func (h HandSpec) Build(s *store.Store) (cid.Cid, []byte) {
 			}
 			d.Filesize = &sz
 		}
+		var packed []uint64
+		if h.PackedBlockSizes {
+			packed, d.Blocksizes = d.Blocksizes, nil
+		}
 		db, _ := proto.Marshal(d)
+		if len(packed) > 0 {
+			var run []byte
+			for _, v := range packed {
+				run = protowire.AppendVarint(run, v)
+			}
+			db = protowire.AppendTag(db, 4, protowire.BytesType)
+			db = protowire.AppendBytes(db, run)
+		}
 		blk := model.EncodePB(&model.PBNode{Data: db, HasData: true, Links: links})
 		c, _ := V1PB.Sum(blk)
 		s.Put(c, blk)
